@@ -9,7 +9,7 @@ import (
 	"sort"
 	"strings"
 
-	"golang.org/x/tools/go/ssa"
+	"verif/third_party/xtools/go/ssa"
 
 	"verif/internal/core"
 )
